@@ -319,7 +319,7 @@ func (k *K) packetDataRule(id string, app appDesc) {
 func (k *K) whoMayMutate(id string, app appDesc) {
 	allowedHolders := map[string]bool{app.send: true, "OnRecvPacket": true, "refundPacketToken": true}
 	entry := map[string]bool{
-		"(" + shortPath(app.keeperPkg) + ".Keeper)." + app.msg:            true,
+		"(" + shortPath(app.keeperPkg) + ".Keeper)." + app.msg:              true,
 		"(" + shortPath(app.modPkg) + ".AppModule).OnRecvPacket":            true,
 		"(" + shortPath(app.modPkg) + ".AppModule).OnAcknowledgementPacket": true,
 	}
